@@ -1,7 +1,7 @@
 """C13 - transparent compression never changes what clients read back.
 
 Spec modules owned by this check: spec/redis/Compress.tla, CompressGen.tla, CompressPipe.tla, CompressPipeGen.tla
-(+ MC_Compress_*.cfg, Gen_Compress.cfg, Strata_Compress*.cfg, MC_CompressPipe_*.cfg, Gen_CompressPipe_*.cfg).
+(+ MC_Compress_*.cfg, Gen_Compress*.cfg, Strata_CompressAll*.cfg, MC_CompressPipe_*.cfg, Gen_CompressPipe_*.cfg).
 
 spec/redis/Compress.tla: value classes by how the value compression behaves, one or several value positions per write
 request, number of compression layers of the stored bytes and whether they still are the bytes the filter produced
@@ -11,20 +11,30 @@ of the reply (bulk / flat array / nested array = HSCAN), age of the backend conn
 (config in force when it was made; connections are made again).  TLC checks StoredForm, ReadBack, OnlyWhenEnabled exhaustively
 for the code's constants and must find a counterexample for each broken variant: FixOnce = FALSE (compression per send),
 HookDepth = 1 (hooks do not descend into nested arrays), OwnBytes = FALSE (request keeps pointing into the scratch
-buffer), ConnConfig = "at-connect" (a connection's filter works with the config of connection time: ReadBack, OffMeansOff); the windows the mandatory strata consist of must be reachable.
+buffer), ConnConfig = "at-connect" (a connection's filter works with the config of connection time: ReadBack, OffMeansOff),
+BareUpdate = "off-dropped" (a bare `enable: false` acknowledged and carried out as "no section": ReadBack), ReadLimit = 512 KiB
+(decompression cuts large values: ReadBack).  MC_Compress_dims.cfg: connection age, refused updates and absolute sizes together, clean.
+That the windows the mandatory strata consist of are reachable is shown by the strata themselves (TLC emits them) and by
+the counters of what the replay really exercised (inconclusive when too low).
 spec/redis/CompressPipe.tla: the writer of a backend connection with its queue; a disabled command never reaches the
 backend, whatever is queued behind it (AfterStop = "queued-falls-through" must violate BannedRejectedLocally).
 
 Replayed on the real code, judged by the property's predicate (bytes read back = bytes written; bytes stored at the
 node = original or header + one snappy stream that expands to the original and is shorter, decoded with the harness' own
 snappy; disabled commands get the error and never show up in a node's command log):
- * mandatory strata (Strata_Compress.cfg, enumerated completely by TLC every run): compression on, one write of every
+ All mandatory strata are enumerated completely by ONE TLC run (AllStrataSpec, Strata_CompressAll.cfg) every run:
+ * base strata (960, thorough 9072): compression on, one write of every
    shape (all class combinations of 1-2 value positions x 0-1 redirections x with/without other traffic while the
    write is on its way), optionally compression switched off, one read of every shape (0-1 redirections x reply depth
    0/1/2) - nine write commands + HMSET/HSET/MSET with several values, GET/GETSET/MGET/HGET/HMGET/HGETALL/HVALS/HSCAN;
- * mandatory strata of connection age (Strata_CompressConn.cfg, 864): every node connected under the first config, config
+ * mandatory strata of connection age (864): every node connected under the first config, config
    changed at run time, no / one connection made again (the node's connections are reset), one write and one read each over
    a chosen connection (the slot is handed to that node and the processor's table settled first);
+ * mandatory strata of refused updates (48): a section in force, one write, one update with a
+   compression section without threshold (refused by the validator: the old config stays), one read of every depth;
+ * mandatory strata of absolute sizes (216): compressible and incompressible values of 65535 /
+   65536 / 65537 / 524287 / 524288 / 524289 / 1 MiB + 1 / 3 MiB / 16 MiB, written and read with and without a redirection,
+   every reply depth;
  * TLC-simulated histories (seeded; config switches, writes with 1-3 values and 0-2 redirections, reads);
  * every CompressPipe behaviour (pipelines up to length 3, thorough 4, every interleaving of hand-over and take) forced
    on the real writer through the hook points client.loopWrite.select / client.Send.enqueued, one or two sessions;
@@ -49,7 +59,7 @@ def _parallel(jobs, width):
 def _emit(ctx, module, cfg, tag, **kw):
     """Exhaustive run of a Gen module (history variable in the state: every behaviour is a distinct path) that must be
     clean; returns the printed behaviours."""
-    r = ctx.mc("redis", module, cfg, workers=1, timeout=600, **kw)
+    r = ctx.mc("redis", module, cfg, workers=1, timeout=900, heap="2g", **kw)
     return [p for (t, p) in r.prints if t == tag]
 
 
@@ -59,36 +69,29 @@ def run(ctx):
                         "HSCAN is answered by the simulated node with the reply shape of Redis ([cursor, [field, value, ...]]) built from the bytes it stores"]
     num = 300 if ctx.thorough else 40
     # ---- the model (independent TLC runs and the harness build side by side: the wall clock of the quick tier matters)
+    small = dict(workers=1, timeout=600, heap="2g")
     jobs = {
         "build": lambda: ctx.build(),
-        "fixed": lambda: ctx.mc("redis", "Compress", "MC_Compress_fixed_deep.cfg" if ctx.thorough else "MC_Compress_fixed.cfg",
-                                workers=8 if ctx.thorough else 4, timeout=900),
-        "wide": lambda: ctx.mc("redis", "Compress", "MC_Compress_fixed_wide.cfg", workers=8, timeout=1800) if ctx.thorough else None,
-        "pinned": lambda: ctx.mc("redis", "Compress", "MC_Compress_pinned.cfg", workers=1, timeout=300, expect_violated=["StoredForm", "ReadBack"], count=False),
-        "flathook": lambda: ctx.mc("redis", "Compress", "MC_Compress_flathook.cfg", workers=1, timeout=300, expect_violated=["ReadBack"], count=False),
-        "scratch": lambda: ctx.mc("redis", "Compress", "MC_Compress_scratch.cfg", workers=1, timeout=300, expect_violated=["StoredForm"], count=False),
-        "conn": lambda: ctx.mc("redis", "Compress", "MC_Compress_conn.cfg", workers=2, timeout=300),
-        "conn-frozen-read": lambda: ctx.mc("redis", "Compress", "MC_Compress_connfrozen_read.cfg", workers=1, timeout=300, expect_violated=["ReadBack"], count=False),
-        "conn-frozen-off": lambda: ctx.mc("redis", "Compress", "MC_Compress_connfrozen_off.cfg", workers=1, timeout=300, expect_violated=["OffMeansOff"], count=False),
-        "w-conn": lambda: ctx.mc("redis", "Compress", "MC_Compress_window_conn.cfg", workers=1, timeout=300,
-                                 expect_violated=["NoReadOverOlderConnection"], count=False),
-        "strata-conn": lambda: _emit(ctx, "CompressGen", "Strata_CompressConn.cfg", "BEH"),
-        "w-nested": lambda: ctx.mc("redis", "Compress", "MC_Compress_window_nested.cfg", workers=1, timeout=300,
-                                   expect_violated=["NoNestedReadOfCompressed"], count=False),
-        "w-multi": lambda: ctx.mc("redis", "Compress", "MC_Compress_window_multi.cfg", workers=1, timeout=300,
-                                  expect_violated=["NoTwoCompressedInOneRequest"], count=False),
-        "pipe-broken": lambda: ctx.mc("redis", "CompressPipe", "MC_CompressPipe_broken.cfg", workers=1, timeout=300,
-                                      expect_violated=["BannedRejectedLocally"], count=False),
-        "pipe-window": lambda: ctx.mc("redis", "CompressPipe", "MC_CompressPipe_window.cfg", workers=1, timeout=300,
-                                      expect_violated=["NoBannedWithQueueBehind"], count=False),
-        "strata": lambda: _emit(ctx, "CompressGen", "Strata_Compress_deep.cfg" if ctx.thorough else "Strata_Compress.cfg", "BEH"),
-        "sim": lambda: ctx.tlc("redis", "CompressGen", "Gen_Compress.cfg", mode="sim", workers=1, sim_num=num, sim_depth=60, seed=ctx.seed,
-                               deadlock=False, timeout=300),
+        "strata": lambda: _emit(ctx, "CompressGen", "Strata_CompressAll_deep.cfg" if ctx.thorough else "Strata_CompressAll.cfg", "BEH"),
+        "sim": lambda: ctx.tlc("redis", "CompressGen", "Gen_Compress_deep.cfg" if ctx.thorough else "Gen_Compress.cfg", mode="sim", workers=1, sim_num=num,
+                               sim_depth=60, seed=ctx.seed, deadlock=False, timeout=600, heap="2g"),
         "pipes": lambda: _emit(ctx, "CompressPipeGen", "Gen_CompressPipe_4.cfg" if ctx.thorough else "Gen_CompressPipe_3.cfg", "PIPE"),
+        "fixed": lambda: ctx.mc("redis", "Compress", "MC_Compress_fixed_deep.cfg" if ctx.thorough else "MC_Compress_fixed.cfg",
+                                workers=4 if ctx.thorough else 2, timeout=1800, heap="4g"),
+        "wide": lambda: ctx.mc("redis", "Compress", "MC_Compress_fixed_wide.cfg", workers=4, timeout=3600, heap="4g") if ctx.thorough else None,
+        "dims": lambda: ctx.mc("redis", "Compress", "MC_Compress_dims.cfg", **small),
+        "pinned": lambda: ctx.mc("redis", "Compress", "MC_Compress_pinned.cfg", expect_violated=["StoredForm", "ReadBack"], count=False, **small),
+        "flathook": lambda: ctx.mc("redis", "Compress", "MC_Compress_flathook.cfg", expect_violated=["ReadBack"], count=False, **small),
+        "scratch": lambda: ctx.mc("redis", "Compress", "MC_Compress_scratch.cfg", expect_violated=["StoredForm"], count=False, **small),
+        "conn-frozen": lambda: ctx.mc("redis", "Compress", "MC_Compress_connfrozen.cfg", expect_violated=["ReadBack", "OffMeansOff"], count=False, **small),
+        "bare-dropped": lambda: ctx.mc("redis", "Compress", "MC_Compress_baredropped.cfg", expect_violated=["ReadBack"], count=False, **small),
+        "size-limit": lambda: ctx.mc("redis", "Compress", "MC_Compress_sizelimit.cfg", expect_violated=["ReadBack"], count=False, **small),
+        "pipe-broken": lambda: ctx.mc("redis", "CompressPipe", "MC_CompressPipe_broken.cfg", expect_violated=["BannedRejectedLocally"], count=False, **small),
     }
     # the drivers need only the build and the emitted behaviours; the exhaustive runs are joined at the end
-    ex = concurrent.futures.ThreadPoolExecutor(max_workers=8)
-    first = ("build", "strata", "strata-conn", "sim", "pipes")
+    # (at most four JVMs at a time: other checks run on the same machine)
+    ex = concurrent.futures.ThreadPoolExecutor(max_workers=4)
+    first = ("build", "strata", "sim", "pipes")
     order = list(first) + [k for k in jobs if k not in first]
     futs = {name: ex.submit(jobs[name]) for name in order}
     try:
@@ -103,17 +106,22 @@ def run(ctx):
 def _drivers(ctx, done, num):
 
     # ---- histories: mandatory strata + seeded simulation
-    strata = done["strata"]
-    want = 9072 if ctx.thorough else 960   # writes (class sequences x redirections x traffic) x (switched off or not) x reads (redirections x depth)
-    if len(strata) != want:
-        raise kit.Inconclusive("expected %d strata, TLC emitted %d" % (want, len(strata)))
+    fam = {}
+    for h in done["strata"]:
+        fam.setdefault(h[0]["k"], []).append(h)
+    want = {"s-base": 9072 if ctx.thorough else 960,   # writes (class sequences x redirections x traffic) x (switched off or not) x reads (redirections x depth)
+            "s-conn": 864,    # first config x changed config x (no connection | a | b made again) x write (class x connection) x read (depth x connection)
+            "s-bare": 48,     # section in force (on | off) x class x bare update (on | off) x read depth
+            "s-size": 216}    # (compressible | not) x 9 sizes x redirections of the write x read (redirections x depth)
+    got = {k: len(v) for k, v in fam.items()}
+    if got != want:
+        raise kit.Inconclusive("strata emitted by TLC: %s, expected %s" % (got, want))
+    strata = fam["s-base"]
+    cstrata = fam["s-conn"] + fam["s-bare"] + fam["s-size"]
     g = done["sim"]
     sims = [p for (tag, p) in g.prints if tag == "BEH"]
     if len(sims) < num // 2:
         raise kit.Inconclusive("only %d histories emitted: %s" % (len(sims), g.error[:300]))
-    cstrata = done["strata-conn"]
-    if len(cstrata) != 864:   # first config x changed config x (no connection | a | b made again) x write (class x connection) x read (depth x connection)
-        raise kit.Inconclusive("expected 864 strata of connection age, TLC emitted %d" % len(cstrata))
     behs = strata + cstrata + sims
     bfile = os.path.join(ctx.work, "histories.ndjson")
     kit.write_ndjson(bfile, behs)
@@ -130,7 +138,7 @@ def _drivers(ctx, done, num):
     ran = _parallel({
         "replay": lambda: ctx.harness(["c13-replay", "-in", bfile, "-out", rfile, "-workers", "4"], timeout=1500, allow_fail=True),
         "pipeline": lambda: ctx.harness(["c13-pipeline", "-in", pfile, "-out", prfile], timeout=1500, allow_fail=True),
-        "concurrent": lambda: ctx.harness(["c13-concurrent", "-out", cfile, "-clients", "8", "-ops", "1500" if ctx.thorough else "150"],
+        "concurrent": lambda: ctx.harness(["c13-concurrent", "-out", cfile, "-clients", "8", "-ops", "1500" if ctx.thorough else "400"],
                                           timeout=1500, allow_fail=True),
         "values": lambda: ctx.harness(["c13-values", "-out", vfile, "-n", "20000" if ctx.thorough else "2000"], timeout=900, allow_fail=True),
     }, 4)
@@ -138,7 +146,7 @@ def _drivers(ctx, done, num):
     results = {r["id"]: r for r in kit.read_ndjson(rfile)} if os.path.exists(rfile) else {}
     good = 0
     infra = []
-    tot = {"nested": 0, "multi": 0, "traffic": 0, "packed": 0, "oldconn": 0, "offconn": 0}
+    tot = {"nested": 0, "multi": 0, "traffic": 0, "packed": 0, "oldconn": 0, "offconn": 0, "large": 0, "refused": 0}
     for i, beh in enumerate(behs):
         res = results.get(i + 1)
         if res is None:
@@ -154,7 +162,7 @@ def _drivers(ctx, done, num):
         good += 1
         for k in tot:
             tot[k] += res.get(k, 0)
-        ctx.case(key=[(s["a"], s["c"], s["k"], tuple(s["vals"]), s["r"], s["busy"], s["d"], s["n"]) for s in beh],
+        ctx.case(key=[(s["a"], s["c"], s["k"], tuple(s["vals"]), tuple(s["sz"]), s["r"], s["busy"], s["d"], s["n"]) for s in beh],
                  nontrivial=res.get("packed", 0) > 0, n=res["writes"] + res["reads"])
         if not res.get("bad"):
             ctx.cov["traces_validated_against_impl"] += 1
@@ -162,12 +170,13 @@ def _drivers(ctx, done, num):
     if len(infra) > len(behs) * 0.05 and not ctx.violations:
         raise kit.Inconclusive("the processor could not deliver %d requests (first: %s)" % (len(infra), infra[0]))
     _stands_or_inconclusive(ctx, rc, se, "c13-replay", good >= len(behs) * 0.8, "%d of %d histories replayed" % (good, len(behs)))
-    if not ctx.violations and (tot["nested"] < 50 or tot["multi"] < 20 or tot["traffic"] < 100 or tot["oldconn"] < 40 or tot["offconn"] < 40):
+    if not ctx.violations and (tot["nested"] < 50 or tot["multi"] < 20 or tot["traffic"] < 100 or tot["oldconn"] < 40 or tot["offconn"] < 40 or tot["large"] < 30 or tot["refused"] < 30):
         raise kit.Inconclusive("mandatory strata not exercised: %s" % tot)
     ctx.notes.append("histories: %d strata + %d simulated; values stored compressed %d, of which read back in nested replies %d; requests with >= 2 "
                      "compressed values %d; background values during writes %d; compressed values read over a connection older than the config %d; compressible values written over a connection "
-                     "made while compression was enabled, after it was switched off %d"
-                     % (len(strata) + len(cstrata), len(sims), tot["packed"], tot["nested"], tot["multi"], tot["traffic"], tot["oldconn"], tot["offconn"]))
+                     "made while compression was enabled, after it was switched off %d; values above 512 KiB stored compressed and read back %d; updates with a "
+                     "compression section without threshold refused %d"
+                     % (len(strata) + len(cstrata), len(sims), tot["packed"], tot["nested"], tot["multi"], tot["traffic"], tot["oldconn"], tot["offconn"], tot["large"], tot["refused"]))
     if results.get(1):
         ctx.sample({"history": behs[0], "result": results[1]})
 
@@ -201,16 +210,21 @@ def _drivers(ctx, done, num):
     # ---- concurrent writers
     rc, _, se = ran["concurrent"]
     cres = kit.read_ndjson(cfile) if os.path.exists(cfile) else []
+    final = [r for r in cres if not r["case"].endswith("(partial)")]
+    partial = [r for r in cres if r["case"].endswith("(partial)")]
+    # every finding is written at once (partial records) and again in the final record; without a final record (the
+    # processor panicked and took the driver along) the partial ones are all there is
+    cres = final if final else partial
     for r in cres:
         ctx.case(key=["concurrent", r["case"]], nontrivial=True, n=r["values"])
         for b in r.get("bad") or []:
-            if b["sig"] == "read-failed" or (r.get("failures", 0) > 0 and not b["sig"].startswith("stored-form/")):
+            if b["sig"] == "read-failed" or ((r.get("failures", 0) > 0 or not final) and not b["sig"].startswith("stored-form/")):
                 # no reply / the processor could not deliver a request (MSET answers +OK whatever its children were answered):
                 # with backend failures around, only the stored form of what did reach a node is judged
                 ctx.notes.append("concurrent (%d backend failures): %s" % (r.get("failures", 0), b["what"][:300]))
                 continue
             ctx.violation(b["sig"], b["what"], r)
-    _stands_or_inconclusive(ctx, rc, se, "c13-concurrent", bool(cres) and cres[0]["writes"] > 500 and cres[0]["packed"] > 100,
+    _stands_or_inconclusive(ctx, rc, se, "c13-concurrent", bool(final) and final[0]["writes"] > 500 and final[0]["packed"] > 100,
                             "concurrent writers: %s" % (cres[:1],))
 
     # ---- white box
@@ -221,8 +235,10 @@ def _drivers(ctx, done, num):
         ctx.case(key=["value", r["case"]], nontrivial=True)
         if not r["ok"]:
             sig = "banned-not-rejected/" + r["case"].split(" ")[-1].lower() if r["case"].startswith("banned") else "value-codec"
+            if r["case"].startswith("large value"):
+                sig = "value-codec/large-value"
             ctx.violation(sig, "%s: %s" % (r["case"], r.get("why")), r)
-    ctx.cov["rule"] = ("histories = the strata enumerated by TLC (Strata_Compress.cfg: 960, thorough Strata_Compress_deep.cfg: 9072) + TLC simulation of CompressGen (seeded), distinct by event sequence, "
+    ctx.cov["rule"] = ("histories = the strata enumerated by TLC (Strata_CompressAll.cfg: 960 + 864 + 48 + 216; thorough 9072 + ...) + TLC simulation of CompressGen (seeded), distinct by event sequence, "
                        "non-trivial = a value reached the backend compressed; each write/read is one evaluation; pipelines = every behaviour of CompressPipeGen, "
                        "non-trivial = a disabled command taken with requests queued behind it; plus concurrent writers, random value round trips and single disabled commands")
 
